@@ -695,7 +695,8 @@ func (s *SimStore) DeleteAccountMetadata(ctx context.Context, address, key strin
 		if cur == nil {
 			return nil
 		}
-		row := &AcctRow{Address: address, Metadata: copyMeta(cur.Metadata), FirstUsage: cur.FirstUsage, InsertionDate: cur.InsertionDate, UpdatedAt: cur.UpdatedAt}
+		// (updated_at = transaction_date(), since the repair of F40)
+		row := &AcctRow{Address: address, Metadata: copyMeta(cur.Metadata), FirstUsage: cur.FirstUsage, InsertionDate: cur.InsertionDate, UpdatedAt: time.New(sess.transactionDate())}
 		delete(row.Metadata, key)
 		sess.put(k, row)
 		return nil
